@@ -58,7 +58,7 @@ def main():
             pass
         use_cache = (tier == "quick") and not a.no_cache
         variants = [("-UNDEBUG",)]
-        if tier == "thorough":
+        if tier == "thorough" and getattr(mod, "NDEBUG_VARIANT", True):
             variants.append(("-DNDEBUG",))
         nfun = 0
         for vi, extra in enumerate(variants):
